@@ -337,6 +337,14 @@ async fn run_async(cfg: &ACfg, hist: &[AEv]) -> Outcome<AEv> {
             if e.node_id() != *id {
                 violation = Some(mk("an entry's record belongs to its node id", "admit:foreign-record", format!("{}", util::short(id))));
             }
+            // a PONG carries no record: it never lowers the sequence number of a stored record
+            if matches!(ev, AEv::Pong(..)) {
+                if let Some(old) = before.get(id) {
+                    if e.seq() < old.seq() {
+                        violation = Some(mk("a record learnt from the network replaces a stored one only with a strictly higher sequence number", "admit:replace-seq", format!("{}: stored seq {} replaced by seq {} on a PONG", util::short(id), old.seq(), e.seq())));
+                    }
+                }
+            }
             // a session reported with the record the service itself dialled: when that record is known
             // only from a NODES answer (no session report or user call ever carried it) and the service
             // stored a newer one at the time it dialled, it must not replace the stored one
